@@ -120,7 +120,7 @@ def run_case(case):
     chst = gen.chemostats_of(desc)
     f_free, mag = ref.rate_law(desc, state.tolist(), None)
     f_free = np.array(f_free)
-    maxrate = max([m / (abs(s_) + 1.0) for m, s_ in zip(mag, state)] + [1e-3])
+    maxrate = ref.max_rate(desc, state)
     dt = 0.01 / maxrate
     req = [dt * (k + 0.5) for k in sorted(r0.sample(range(NSTEPS), r0.randint(1, 6)))]
     if r0.random() < 0.5:
